@@ -943,10 +943,12 @@ def real_parses(tier, seed):
     for i in range(0, len(extra), 13):
         tasks.append(("tree", ("ansi", extra[i:i + 13])))
     # CLI roots: the crafted + Jinja strings and the ansi files get every (format, flag) combination, the other dialects the three formats
-    half = len(extra) // 2
-    cli_tasks = [({"ansi": extra[:half]}, CLI_COMBOS_FLAGS), ({"ansi": extra[half:] + cli_other.pop("ansi")}, CLI_COMBOS_FLAGS)]
+    # (many small CLI tasks: in this sandbox concurrent parses slow each other down, the makespan is set by the longest task)
+    ansi_cli = extra + cli_other.pop("ansi")
+    csz = 7 if tier == "quick" else 10
+    cli_tasks = [({"ansi": ansi_cli[i:i + csz]}, CLI_COMBOS_FLAGS) for i in range(0, len(ansi_cli), csz)]
     ds = sorted(cli_other)
-    nparts = 4 if tier == "quick" else 12
+    nparts = 14 if tier == "quick" else 27
     for k in range(nparts):
         part = {d: cli_other[d] for d in ds[k::nparts] if cli_other[d]}
         if part:
